@@ -15,7 +15,7 @@ DOC = {
         'C06.R1': 'group_filter: unique -> Underreplicated(2); rf_under -> Underreplicated(rf); else Overreplicated(rf_over()); root_paths non-empty iff isolate; group_by_id = !match_links',
         'C06.R2': 'matches_strictly: Over: count > rf, Under: count < rf; matches: Over: count > rf, Under: true; count = FileSubGroup::group(files, root_paths, group_by_id).len()',
         'C06.R3': 'the last stage on every branch of group_files filters with matches_strictly (exception: --skip-content-hash)',
-        'C06.R4': 'FileSubGroup::group: root prefix (is_prefix_of) first, else id group when group_by_id (IndexMap), else singleton; empty groups removed',
+        'C06.R4': '(nested roots: the innermost root wins, independent of the order of the roots) FileSubGroup::group: root prefix (is_prefix_of) first, else id group when group_by_id (IndexMap), else singleton; empty groups removed',
         'C06.R5': 'FileMetadata::new/FileId::new use fs::metadata (follow links); Entry::from_path uses symlink_metadata',
         'C06.R6': 'FileGroupFilter.root_paths and DedupeConfig.isolated_roots derive from a canonicalising call, like the scanned paths (Walk::absolute)',
         'C06.R7': 'GroupConfig::rf_over() does not read `transform`',
@@ -332,9 +332,15 @@ def r4(ctx):
     im = b.calls(r'^indexmap::IndexMap')
     hm = b.calls(r'HashMap|BTreeMap|DashMap')
     ctx.check(bool(im) and not hm, rule, P + '|ordered-map', b.where(), 'id groups are kept in an IndexMap (insertion order)', 'id groups are kept in %s: sub-group order becomes hash-dependent' % (sorted({c.path.split('::')[2] for c in hm}) if hm else 'no IndexMap'))
-    pos = b.calls(r'Iterator::position$|::position$')
+    pos = b.calls(r'Iterator::position$|::position$|Iterator::max_by_key$|Iterator::min_by_key$|Iterator::max_by$|Iterator::min_by$')
     pref = any(lib.body(cp).calls(r'path::Path::is_prefix_of$') for cp in lib.closures_of(b.path))
-    ctx.check(bool(pos) and pref, rule, P + '|root-prefix', b.where(), 'root = first root that is a prefix of the path', 'the root of a file is not found by Path::is_prefix_of')
+    ctx.check(bool(pos) and pref, rule, P + '|root-prefix', b.where(), 'root = a root that is a prefix of the path', 'the root of a file is not found by Path::is_prefix_of')
+    # the choice among several matching (nested) roots does not depend on their order: the most specific one, not the first one
+    sel = b.calls(r'Iterator::max_by_key$|Iterator::min_by_key$|Iterator::max_by$|Iterator::min_by$')
+    by_depth = any(lib.body(cp).calls(r'path::Path::component_count$|::len$') for cp in lib.closures_of(b.path))
+    ctx.check(bool(sel) and by_depth, rule, P + '|root-order-independent', (sel[0].where() if sel else (pos[0].where() if pos else b.where())), 'among nested roots the innermost one (most components) is chosen',
+              'a file below several of the roots is assigned to the first of them on the command line: `--isolate d d/sub` puts d/sub/b into root d (nothing reported) while `--isolate d/sub d` '
+              'reports {d/sub/b, d/a} and `remove` deletes d/a - the set of duplicates depends on the order of the roots')
     # decision structure: Some(idx) -> push into prefix group; None && group_by_id -> id group; None -> singleton
     entry = b.calls(r'IndexMap.*::entry$')
     single = b.calls(r'FileSubGroup.*::single$')
